@@ -61,13 +61,13 @@ var fileN atomic.Int64
 
 // bench is one witness with both fault seams.
 type bench struct {
-	level string // iface-mem | iface-sql | driver-mem | driver-file
-	rn    *wit.Runner
-	hook  *seams.HookStore
-	plan  *seams.SQLPlan
-	db    *sql.DB
-	l     *gen.Log
-	armed *atomic.Bool
+	level  string // iface-mem | iface-sql | driver-mem | driver-file
+	rn     *wit.Runner
+	hook   *seams.HookStore
+	plan   *seams.SQLPlan
+	db     *sql.DB
+	l      *gen.Log
+	armed  *atomic.Bool
 	wedged bool
 	pause  atomic.Bool // set while the harness itself reads: its reads are never faulted
 }
